@@ -3,7 +3,7 @@
    path are left untouched -- zero for a zero-initialised matrix; the point Jacobian is rows 3..5 of the 6-D one
    column by column.  G(q) qdot = velocity and the derivative property are decided by the L3 oracle. *)
 From Coq Require Import List NArith.
-From RV Require Import Scalar LinAlg3 Spatial ListArr ModelDef JointDef KinDef JacThm.
+From RV Require Import Scalar Laws LinAlg3 Spatial ListArr LinDef ModelDef JointDef KinDef C14Thm WsLemmas KinThm C04Thm JacThm JacThm2 JacThm3.
 Import ListNotations.
 Section P.
   Context {T : Type} (O : Ops T).
@@ -34,6 +34,21 @@ Section P.
     v3list (svlin (st_apply O pt s)) = skipn 3 (svlist (st_apply O pt s)).
   Proof. exact (point_jacobians_same_columns O M w id p s). Qed.
 End P.
+Section Q.
+  Context {T : Type} (O : Ops T) {FL : FieldLaws O} {TL : TrigLaws O}.
+  (* G(q) qdot = velocity: the body spatial Jacobian of every movable body, computed on the workspace left by the
+     position update from ANY incoming workspace, times qdot is the body's spatial velocity v_b of the velocity
+     recursion (C06), for every well-formed tree, joint kind and arity on the path, and every qdot *)
+  Theorem C05_spatial_jacobian_times_qdot_is_body_velocity (M : @Model T) q qd (w0 : @WS T) (id : N) :
+    WF M ->
+    (forall i j, 0 < i < nbodies M -> 0 < j < nbodies M -> i <> j ->
+       is_custom (jkind (getJ M i)) = true -> is_custom (jkind (getJ M j)) = true -> jcust (getJ M i) <> jcust (getJ M j)) ->
+    length qd = dof_count M -> (forall i, 0 < i < nbodies M -> joint_wf O M q i) -> Good O M w0 ->
+    (id < fixed_disc)%N -> 0 < N.to_nat id < nbodies M ->
+    mvmul O (body_spatial_jacobian O M (ukc_q O M w0 q) id (mzeros (o0 O) 6 (dof_count M))) qd = svlist (vF O M q qd (N.to_nat id)).
+  Proof. intros W C Lq Jw G. exact (spatial_jacobian_times_qd O M q W C qd Lq Jw w0 G id). Qed.
+End Q.
 Print Assumptions C05_point_jacobian_off_path_zero. Print Assumptions C05_point_jacobian6_off_path_zero.
 Print Assumptions C05_body_spatial_jacobian_off_path_zero. Print Assumptions C05_fill_leaves_other_columns.
 Print Assumptions C05_point_jacobian_is_linear_part_of_6D.
+Print Assumptions C05_spatial_jacobian_times_qdot_is_body_velocity.
